@@ -88,7 +88,7 @@ Mix ==
                              "SetObjective", "SetObjCoef", "SetDirection", "SetMedium", "GetMedium", "SwitchSolver",
                              "AddUserCons", "AddUserVar", "RemoveUserCons", "RemoveUserVar", "AddGroup", "RemoveGroup",
                              "Copy", "Enter", "Exit", "RoundTrip", "DetachedSetBounds", "RxnArith", "Merge", "SaveDoc", "LoadDoc", "BuildFromString", "BuildFromString",
-                             "SetFunctional", "Repair">>
+                             "SetFunctional", "Repair", "ReAddDetached", "ReAddDetached", "AddArith">>
     [] Profile = "ctx" -> <<"Enter", "Enter", "Enter", "Exit", "Exit", "Exit", "AddReactions", "RemoveReactions",
                             "RemoveReactions", "AddMetabolites", "RemoveMetabolites", "AddBoundary", "RxnAddMetabolites",
                             "RxnAddMetabolites", "RxnSubtractMetabolites", "RxnIMul", "RxnIAdd", "RxnISub", "SetLB", "SetUB",
@@ -96,14 +96,14 @@ Mix ==
                             "RenameGene", "SetObjective", "SetObjCoef", "SetDirection", "SetMedium", "SwitchSolver",
                             "AddUserCons", "AddUserVar", "RemoveUserCons", "RemoveUserVar", "Helper", "Helper",
                             "DetachedSetBounds", "DetachedSetBounds", "Copy", "Merge", "BuildFromString", "SetFunctional", "RenameReaction",
-                            "RenameMetabolite", "SwitchSolver">>
+                            "RenameMetabolite", "SwitchSolver", "ReAddDetached", "ReAddDetached", "Repair">>
     [] Profile = "ko" -> <<"GeneKnockOut", "GeneKnockOut", "GeneKnockOut", "KnockOutModelGenes", "KnockOutModelGenes",
                            "RxnKnockOut", "SetRule", "SetRule", "Enter", "Exit", "SetBounds", "AddReactions", "SetFunctional">>
     [] Profile = "copy" -> <<"Copy", "Copy", "AddReactions", "RemoveReactions", "RemoveMetabolites", "RxnAddMetabolites",
                              "RxnIMul", "SetBounds", "SetRule", "GeneKnockOut", "RemoveGenes", "RenameGene", "RenameReaction",
                              "RenameMetabolite", "SetObjective", "SetDirection", "SetMedium", "AddUserCons", "AddGroup",
                              "RemoveGroup", "Annotate", "Annotate", "Annotate", "Analyze", "Enter", "Exit", "SwitchSolver",
-                             "RxnArith", "RxnArith", "RxnArith", "Merge", "Merge">>
+                             "RxnArith", "RxnArith", "Merge", "Merge", "AddArith", "AddArith", "AddArith">>
     [] Profile = "io" -> <<"RoundTrip", "RoundTrip", "RoundTrip", "RoundTrip", "AddReactions", "RemoveReactions", "RxnAddMetabolites",
                            "SetBounds", "SetBounds", "SetLB", "SetUB", "SetRule", "SetObjective", "SetObjCoef",
                            "SetDirection", "AddBoundary", "AddGroup", "Annotate", "Annotate", "Annotate", "RenameGene",
@@ -165,7 +165,7 @@ DrawOp(r, S) ==
          base @@ [met |-> m, type |-> IF m \in ExtMets THEN (IF d[8] % 4 = 0 THEN "sink" ELSE "exchange")
                                        ELSE Pick(<<"demand", "sink", "exchange">>, d[8])]
     [] k \in {"RxnAddMetabolites", "RxnSubtractMetabolites"} ->
-         base @@ [r |-> rx, d |-> DrawD(C, SubSeq(d, 8, 12)), combine |-> d[13] % 3 # 0, form |-> d[14] % 2]
+         base @@ [r |-> rx, d |-> DrawD(C, SubSeq(d, 8, 12)), combine |-> d[13] % 3 # 0, form |-> d[14] % 3]
     [] k = "RxnIMul" -> base @@ [r |-> rx, k |-> Pick(<<2, -1, 3, -2, 7>>, d[8])]
     [] k \in {"RxnIAdd", "RxnISub"} -> base @@ [r |-> rx, q |-> rx2]
     [] k = "SetLB" -> base @@ [r |-> rx, v |-> Pick(LoVals, d[8])]
@@ -176,6 +176,7 @@ DrawOp(r, S) ==
     [] k = "SetFunctional" -> base @@ [g |-> gn, b |-> d[8] % 2 = 0]
     [] k = "Repair" -> base
     [] k = "RxnArith" -> base @@ [r |-> rx, q |-> rx2, kind |-> Pick(<<"copy", "add", "sub", "mul">>, d[8]), k |-> Pick(<<2, -1, 3, -2>>, d[9])]
+    [] k = "ReAddDetached" -> base @@ [r |-> PickPresent(RxSeq, RxU \ C.rxns, d[3])]
     [] k = "DetachedSetBounds" -> base @@ [r |-> PickPresent(RxSeq, RxU \ C.rxns, d[3]), lo |-> Pick(LoVals, d[8]), hi |-> Pick(HiVals, d[9])]
     [] k = "SetRule" -> base @@ [r |-> rx, rule |-> Pick(RuleU, d[8]), form |-> d[9] % 2]
     [] k = "GeneKnockOut" -> base @@ [g |-> gn]
@@ -210,6 +211,9 @@ DrawOp(r, S) ==
                                   v |-> 1 + (d[9] % 5), via |-> d[10] % 3]
     [] k = "Copy" -> [a |-> k, s |-> 1, t |-> 2, kind |-> Pick(<<"copy", "deepcopy", "pickle">>, d[8])]
     [] k = "Merge" -> [a |-> k, s |-> s, t |-> 3 - s]
+    [] k = "AddArith" -> [a |-> k, s |-> s, t |-> IF d[10] % 3 = 0 THEN s ELSE 3 - s, r |-> rx, q |-> rx2,
+                          kind |-> Pick(<<"add", "copy", "add", "sub", "mul">>, d[8]), k |-> Pick(<<2, -1>>, d[9]),
+                          new |-> PickPresent(PlainRx, RxU \ C.rxns, d[11])]
     [] k \in {"Enter", "Exit"} -> base
     [] k = "RoundTrip" -> base @@ [fmt |-> Pick(Formats, d[8])]
     [] k = "SaveDoc" -> base @@ [fmt |-> Pick(<<"json", "yaml", "dict", "sbml", "pickle">>, d[8])]
@@ -236,7 +240,24 @@ IoOps ==
         [a |-> "Annotate", s |-> 1, x |-> "g1", v |-> 4, via |-> 0],
         [a |-> "SetBounds", s |-> 1, r |-> "r1", lo |-> 1500, hi |-> 2000],
         [a |-> "SetDirection", s |-> 1, dir |-> "min"]}
+\* copy vocabulary: two models (slot 2 = copy of slot 1, seed model 2), edits on either side, detached results of
+\* reaction arithmetic travelling from one model to the other
+CopyOps ==
+  {[a |-> "AddArith", s |-> 1, t |-> 2, r |-> "r3", q |-> "r1", kind |-> "add", k |-> 2, new |-> "EX_m4"],
+   [a |-> "AddArith", s |-> 2, t |-> 1, r |-> "r1", q |-> "r2", kind |-> "copy", k |-> 2, new |-> "EX_m4"],
+   [a |-> "RemoveGenes", s |-> 2, gs |-> <<"g1">>, rr |-> FALSE, form |-> 0],
+   [a |-> "RemoveGenes", s |-> 1, gs |-> <<"g3">>, rr |-> FALSE, form |-> 1],
+   [a |-> "RenameGene", s |-> 2, g |-> "g1", new |-> "g4", more |-> <<>>],
+   [a |-> "Annotate", s |-> 2, x |-> "g1", v |-> 2, via |-> 0],
+   [a |-> "Annotate", s |-> 1, x |-> "m1", v |-> 3, via |-> 2],
+   [a |-> "SetBounds", s |-> 2, r |-> "r1", lo |-> -5, hi |-> 5],
+   [a |-> "RxnIMul", s |-> 2, r |-> "r2", k |-> -1],
+   [a |-> "SetRule", s |-> 2, r |-> "r3", rule |-> G("g2"), form |-> 1],
+   [a |-> "GeneKnockOut", s |-> 1, g |-> "g1"],
+   [a |-> "Merge", s |-> 1, t |-> 2],
+   [a |-> "Enter", s |-> 1], [a |-> "Exit", s |-> 1]}
 FullOps ==
+  IF FullSet = "copy" THEN CopyOps ELSE
   IF FullSet = "io" THEN IoOps ELSE
   IF FullSet = "bounds" THEN BoundOps ELSE
   BoundOps
@@ -253,8 +274,12 @@ FullOps ==
         [a |-> "SetDirection", s |-> 1, dir |-> "min"],
         [a |-> "SetMedium", s |-> 1, d |-> [x \in RxU |-> IF x = "EX_m3" THEN 5 ELSE Missing]],
         [a |-> "DetachedSetBounds", s |-> 1, r |-> "r1", lo |-> 0, hi |-> 5],
+        [a |-> "ReAddDetached", s |-> 1, r |-> "r1"],
+        [a |-> "RxnAddMetabolites", s |-> 1, r |-> "r1", d |-> D1("m1", -2), combine |-> FALSE, form |-> 2],
+        [a |-> "Repair", s |-> 1],
         [a |-> "Enter", s |-> 1], [a |-> "Exit", s |-> 1]}
-FullPrefix == IF FullSet = "io" THEN SeedOps(1, "glpk") \o <<[a |-> "RoundTrip", s |-> 1, fmt |-> "json"]>>
+FullPrefix == IF FullSet = "copy" THEN SeedOps(2, "glpk") \o <<[a |-> "Copy", s |-> 1, t |-> 2, kind |-> "copy"]>> ELSE
+              IF FullSet = "io" THEN SeedOps(1, "glpk") \o <<[a |-> "RoundTrip", s |-> 1, fmt |-> "json"]>>
               ELSE SeedOps(1, "glpk") \o <<[a |-> "Enter", s |-> 1]>>
 
 Init ==
